@@ -132,6 +132,17 @@ CLAIMED = {
             'mvalue_to_slots/m_to_freq round-trip exactly in binary64 for |n|<=4096, m<=512.',
             'slot numbers within [-3,3] (quick) / [-6,6]; band edges on the 6.25 GHz grid; 3 ROADM sites; z3, cvc5, symx trusted',
             'DESIGN.md §2 C15'),
+    'C16': ('symx',
+            'symbolic non-interference: the real batch pipeline executed with symbolic request powers and amplifier p_max; z3/exact '
+            'normaliser decide equality of the symbolic receiver figures with the stand-alone run; candidate counterexamples replayed',
+            'requests_aggregation + compute_path_dsjctn + compute_path_with_disjunction on a designed two-ROADM line (both directions): '
+            'for a request computed after / before a denser bidirectional one, after a blocked one, and next to a twin differing only in '
+            'transmit power, the route, mode, verdict and GSNR/OSNR figures are identical as symbolic expressions to the stand-alone run '
+            'for all powers and p_max on the explored paths (saturating and non-saturating), amplifier settings of the network unchanged, '
+            'every request reported under its own id.',
+            'floats as reals; NLI stubbed to zero in this harness; 2-3 channels per request; paths explored within the time budget (not '
+            'exhaustive); spectrum slots not compared',
+            'DESIGN.md §2 C16'),
     'C17': ('symx',
             'bounded symbolic execution of the real export/reload/completion code with z3 (export rounding modelled exactly); real '
             'design pipeline executed twice / through export-reload on a shape grammar; models replayed on the float code',
